@@ -99,7 +99,12 @@ def run(ctx):
         "evaluations": summ.get("calls", 0),
         "distinct_cases": summ.get("distinct", 0),
         "distinct_nontrivial": summ.get("nontrivial", 0),
-        "rule": "evaluations = CalculateBusLoad calls, each on a bus freshly built through the public API (0..5 interfaces, 0..40 "
+        "rule": "evaluations = CalculateBusLoad calls; one to seven calls per bus with different default cycle times (and the same one "
+                "twice) on the SAME bus, each call compared with the model independently and the public state (cycle times, sizes, "
+                "ids, CAN-IDs, names, membership) snapshotted around every call; 40 % of the buses have node ids agreeing in the low 4 "
+                "bits and message ids from a small set (also congruent mod 128), 40 % a custom CAN-ID builder (message id only / node "
+                "id only / no operations), so distinct messages share computed CAN-IDs and names; entries are matched to the sent "
+                "message objects by identity. Each bus is built through the public API (0..5 interfaces, 0..40 "
                 "messages, sizes 0..8, cycle 0 (default) or 1..3600000, baud in {0,125k,500k,1M,1,random,negative}, default cycle in "
                 "{-1,0,1,100,random,min int,...}); families: mixed, slow messages whose rates all differ by < 1 bit/s, neighbouring "
                 "cycle times, default-cycle ties, fast messages; every accepted bus is re-run with one message enlarged and with one "
